@@ -43,6 +43,7 @@ pub struct HistSpec {
     pub final_dump: bool,
     pub workers: Option<usize>,
     pub script_uncertain: bool,
+    pub max_shrink_execs: u32,
     pub level: &'static str,
 }
 
@@ -76,6 +77,7 @@ impl Default for HistSpec {
             final_dump: true,
             workers: None,
             script_uncertain: true,
+            max_shrink_execs: 400,
             level: "exploration",
         }
     }
@@ -193,7 +195,7 @@ pub fn run(spec: &HistSpec, tier: Tier, seed: u64, replay: Option<Value>) -> i32
     }
     drop(wk0);
 
-    let cfg = LoopCfg { cases: tier.pick(spec.quick_cases, spec.thorough_cases), workers: spec.workers.unwrap_or_else(crate::workers), max_shrink_execs: 400, max_violations: std::env::var("FVH_MAX_VIOL").ok().and_then(|s| s.parse().ok()).unwrap_or(12) };
+    let cfg = LoopCfg { cases: tier.pick(spec.quick_cases, spec.thorough_cases), workers: spec.workers.unwrap_or_else(crate::workers), max_shrink_execs: spec.max_shrink_execs, max_violations: std::env::var("FVH_MAX_VIOL").ok().and_then(|s| s.parse().ok()).unwrap_or(12) };
     let cmd = spec.cmd;
     let max_len = tier.pick(spec.max_len, spec.max_len * 3);
     crate::driver::run_cases(
